@@ -396,6 +396,9 @@ func c07OperationsInfo(p *Prog, r *Report) {
 					if g.Val && Path(g.Cond) == "recv."+need {
 						has = true
 					}
+					if _, isPhi := g.Cond.(*ssa.Phi); isPhi {
+						continue // a condition computed by && / ||: its constituents are among the guards already
+					}
 					if !allowed[Path(g.Cond)] {
 						ok = false
 						detail += fmt.Sprintf(" %s.%s also depends on %s=%v;", owner, fname, Path(g.Cond), g.Val)
